@@ -15,6 +15,7 @@ import (
 	"hash/fnv"
 	"sort"
 	"sync"
+	"sync/atomic"
 	"testing/synctest"
 	"time"
 )
@@ -104,11 +105,16 @@ type Sim struct {
 	probes map[string]int
 
 	// yields
-	yieldMu    sync.Mutex
-	yieldCount map[string]uint64
-	yieldSites map[string]time.Duration // site -> max delay; absent = no yield
-	panicSites map[string]int           // fault point -> permille of calls that panic
-	panicCalls map[string]uint64
+	yieldMu      sync.Mutex
+	yieldCount   map[string]uint64
+	yieldSites   map[string]time.Duration // site -> max delay; absent = no yield
+	observing    atomic.Bool              // the kernel is evaluating invariants / reading final state
+	netDown      atomic.Bool              // teardown: the simulated network accepts no new connections
+	stmtPermille int
+	stmtMaxNs    int64
+	stmtDelay    map[string]time.Duration
+	panicSites   map[string]int // fault point -> permille of calls that panic
+	panicCalls   map[string]uint64
 
 	// pool
 	poolMu    sync.Mutex
@@ -243,15 +249,19 @@ func (s *Sim) Note(kind, key, info string) {
 func (s *Sim) Run(deadline time.Duration, done func() bool) string {
 	for {
 		synctest.Wait()
+		s.observing.Store(true) // the observer's own reads of instrumented code must not deschedule it
 		for _, inv := range s.invariants {
 			if err := inv(); err != nil {
+				s.observing.Store(false)
 				return "invariant: " + err.Error()
 			}
 		}
 		if s.stepHook != nil {
 			s.stepHook()
 		}
-		if done() {
+		fin := done()
+		s.observing.Store(false)
+		if fin {
 			return "done"
 		}
 		now := s.Now()
@@ -331,6 +341,30 @@ func (s *Sim) yield(site string) {
 	d := time.Duration(s.H("yield:"+site, 0) % uint64(max))
 	s.Probe("yield." + site)
 	time.Sleep(d + time.Nanosecond)
+}
+
+// stmtYield is the scheduling point before a statement of an instrumented request-path file. Like
+// yield(), the decision and the delay are functions of (seed, site) only.
+func (s *Sim) stmtYield(site string) {
+	if s.stmtPermille <= 0 || s.stmtMaxNs <= 0 || s.observing.Load() {
+		return
+	}
+	s.yieldMu.Lock()
+	d, ok := s.stmtDelay[site]
+	if !ok {
+		if int(s.H("stmt-site:"+site, 0)%1000) < s.stmtPermille {
+			d = time.Duration(s.H("stmt-delay:"+site, 0)%uint64(s.stmtMaxNs)) + time.Nanosecond
+		}
+		if s.stmtDelay == nil {
+			s.stmtDelay = map[string]time.Duration{}
+		}
+		s.stmtDelay[site] = d
+	}
+	s.yieldMu.Unlock()
+	if d > 0 {
+		s.Probe("stmt-yield")
+		time.Sleep(d)
+	}
 }
 
 // fault is the cooperative fault point: the n-th call at a site panics when the plan says so.
